@@ -73,10 +73,13 @@ CLAIMED = {
     'C08': dict(text='Proved for all shapes, any pattern of sibling sub-tree sizes: C08_children_refines (children() slices the post-order array by '
                      'num_nodes offsets into exactly the child encodings, in order), C08_child_refines (child(i) = i-th child under Python index '
                      'semantics, IndexError exactly outside [-n, n)), C08_child_of_children, C08_counts_sum, C08_compose_refines (compose = '
-                     'substitution of the inner shape for every leaf; result well-formed; leaves multiply), C08_compose_leaf / _leaf_right; '
+                     'substitution of the inner shape for every leaf; result well-formed; leaves multiply), C08_compose_leaf / _leaf_right, '
+                     'C08_transform_leaf_refines / C08_transform_leaf_is_compose / C08_transform_id (the left-to-right loop of Transform with its stack '
+                     'of pending counts: replacing every leaf by the treespec of b builds the shape compose builds; with the leaf treespec it is the '
+                     'identity; Lemmas/EncTransform.lean); '
                      'C08_normIndex_none/some (Python index semantics), C08_child_index_error, C08_entry_of_entries, C08_one_level, '
-                     'C08_compose_counts, C08_compose_rejects, C08_transform_none, C08_make_leaf_none, C08_repr_affixes. children()/constructors/'
-                     'transform rebuild laws: correspondence (5000+ lines per run) + oracle.' + PARTIAL,
+                     'C08_compose_counts, C08_compose_rejects, C08_transform_none, C08_make_leaf_none, C08_repr_affixes. treespec_* constructors and '
+                     'transform with node functions: correspondence (5000+ lines per run) + oracle.' + PARTIAL,
                 technique='Lean 4 proof + correspondence', ref='6 C08'),
     'C09': dict(text='Proved for all well-formed shapes whose payloads fit their kinds, any nesting and any dict key orders: C09_broadcast_refines - the merge walk '
                      'of BroadcastToCommonSuffixImpl over the post-order encodings (integer cursors into both arrays, children last to first, the other '
